@@ -35,6 +35,14 @@ def make(spec):
     if spec.get('terms') and n >= 4:
         kw.update(bonds=[(0, 1), (2, 1), (3, 2)], bond_types=[0, 1, 2], angles=[(0, 1, 2), (3, 2, 1)], angle_types=[0, 1],
                   dihedrals=[(0, 1, 2, 3)], dihedral_types=[0], impropers=[(1, 0, 2, 3)] if spec.get('impropers') else [], improper_types=[0] if spec.get('impropers') else [])
+        if spec.get('kinds') is not None:
+            # only some kinds of terms (e.g. impropers without dihedrals, angles without bonds)
+            if spec.get('impropers'):
+                kw.update(impropers=[(1, 0, 2, 3), (2, 1, 3, 4)], improper_types=[0, 1])
+            for kname, plural in (('bond', 'bonds'), ('angle', 'angles'), ('dihedral', 'dihedrals'), ('improper', 'impropers')):
+                if kname not in spec['kinds']:
+                    kw.pop(plural, None)
+                    kw.pop(kname + '_types', None)
     if spec.get('extra'):
         kw.update(extra_atom_labels=['_atom_site_occupancy', '_atom_site_note'], extra_atom_fields=[['1.0', 'a%d' % i] for i in range(n)])
         if spec.get('terms') and n >= 4:
@@ -184,7 +192,7 @@ REPLAY = {'cif': replay}
 
 def run(rec, tier, seed):
     rec.rule = ("generated structures (1-6 atoms; per-atom elements or explicit types where two types share an element; bonds, angles, dihedrals, "
-                "impropers; extra atom / bond / angle / torsion columns) in 3 cells, coordinates inside / outside / on the boundary (0, 1, 0.99996), "
+                "impropers, also single kinds such as impropers without dihedrals; extra atom / bond / angle / torsion columns) in 3 cells, coordinates inside / outside / on the boundary (0, 1, 0.99996), "
                 "fractional and Cartesian output: write -> read -> compare -> rewrite to identical text; comparison with ase.io.read; hand-written "
                 "files with uncertainties in parentheses; 25 space-group names (P1 spellings accepted, everything else rejected). distinct = specs")
     k = 0
@@ -209,6 +217,13 @@ def run(rec, tier, seed):
                                 if a_.split(': line')[1].split("'")[1].replace('-0.0000 ', '0.0000  ').split() == b_.split("'")[1].replace('-0.0000 ', '0.0000  ').split():
                                     key = 'cif-negative-zero-text'
                             rec.fail('cif', key, "%s on %r" % (msg, spec), spec, 'C15/roundtrip')
+    for ki, kinds in enumerate((['improper'], ['dihedral'], ['angle'], ['bond'], ['bond', 'improper'], ['angle', 'dihedral', 'improper'])):
+        for cell in list(CELLS)[:1] if tier == 'quick' else list(CELLS):
+            spec = dict(cell=cell, where='inside', terms=True, impropers=True, extra=False, typed=bool(ki % 2), fract=True, n=6, seed=seed * 100 + 90 + ki, kinds=kinds)
+            msg = check(spec)
+            rec.case(repr(sorted(spec.items())), group='roundtrip-kinds')
+            if msg:
+                rec.fail('cif', 'cif-roundtrip', "%s on %r" % (msg, spec), spec, 'C15/roundtrip')
     for sg in ('P1', 'P 1'):
         msg = check_reading(sg, False)
         rec.case(('sg', sg), group='reading')
